@@ -287,6 +287,8 @@ pub struct FaultPlan {
     /// when set, the error is built from this raw OS error code (as a real terminal device reports it)
     /// instead of from `kind`
     pub os_code: Option<i32>,
+    /// when set (and no OS code is), the error consists of `kind` alone: it carries no payload
+    pub bare: bool,
 }
 
 /// State of the screen at a flush.
@@ -473,6 +475,7 @@ impl VTerm {
                 g.faults_fired += 1;
                 return Err(match f.os_code {
                     Some(code) => io::Error::from_raw_os_error(code),
+                    None if f.bare => io::Error::from(f.kind),
                     None => io::Error::new(f.kind, "injected terminal fault"),
                 });
             }
